@@ -640,6 +640,20 @@ func (x *Exec) execLoopInvariant(fr *Frame, l *loop, spec *LoopSpec, entry []*Ed
 			}
 		}
 	}
+	// loop postconditions on every exit edge
+	for _, e := range r.exits {
+		if len(spec.Exits) == 0 {
+			break
+		}
+		ce := &CEnv{x: x, fr: fr, st: e.st, old: fr.entry, env: e.env, loop: l, vars: fr.params, lets: fr.lets, guard: e.cond, fc: fr.fc}
+		for i, ex := range spec.Exits {
+			lab := fmt.Sprintf("#%d", i)
+			if ex.Label != "" {
+				lab = ":" + ex.Label
+			}
+			x.oblige("loop-exit", fmt.Sprintf("%sexit@loop%d%s", fr.prefix, l.ordinal, lab), e.cond, x.evalBool(ce, ex), l.header.Instrs[0].Pos(), ex.Text, false)
+		}
+	}
 	return r.exits, []*Env{layer}
 }
 
